@@ -1179,7 +1179,7 @@ fn miri_case(prop: &str, scenario: &str, seed: u64, run: u64, max_ops: usize, fo
     for o in ops.iter_mut() {
         // a burst of 65 536 calls would take days under the interpreter
         match o {
-            Op::Burst { n, .. } | Op::SearchBurst { n, .. } => *n = (*n).min(3),
+            Op::Burst { n, .. } | Op::SearchBurst { n, .. } | Op::JBurst { n, .. } => *n = (*n).min(3),
             _ => {}
         }
     }
